@@ -10,6 +10,7 @@ demo_file=$(ls "$out"/*_test.go 2>/dev/null | head -1)
 [ -d "$out/$(dirname $demo_rel)" ] && demo_file="$out/$demo_rel"
 pkg=./$(dirname "$demo_rel")
 cd "$wt"
+mkdir -p "$wt/$(dirname "$demo_rel")"
 cp "$demo_file" "$wt/$demo_rel"
 tests=$(grep -o "^func Test[A-Za-z0-9_]*" "$demo_file" | sed 's/func //' | paste -sd'|')
 go test -vet=off -count=1 -run "^($tests)\$" $pkg >/tmp/seedchk/$name.clean.log 2>&1; clean=$?
